@@ -737,7 +737,7 @@ func CheckModuli(q, p []uint64) error {
 
 	for i, qi := range q {
 		/* #nosec G115 -- error is returned if integer overflow conversion */
-		if uint64(bits.Len64(qi)-1) > MaxModuliSize+1 {
+		if uint64(bits.Len64(qi)) > MaxModuliSize+1 {
 			return fmt.Errorf("a Qi bit-size (i=%d) is larger than %d", i, MaxModuliSize)
 		}
 	}
@@ -752,7 +752,7 @@ func CheckModuli(q, p []uint64) error {
 
 		for i, pi := range p {
 			/* #nosec G115 -- error is triggered if integer overflow conversion */
-			if uint64(bits.Len64(pi)-1) > MaxModuliSize+2 {
+			if uint64(bits.Len64(pi)) > MaxModuliSize+1 {
 				return fmt.Errorf("a Pi bit-size (i=%d) is larger than %d", i, MaxModuliSize)
 			}
 		}
